@@ -25,7 +25,9 @@ BOUNDS = {
                  "F3 unary chains of depth 3, seeded F5 trees of 5-12 nodes, bare-number spelling, warm-cache variants",
                  "variables": "<=4 symbolic coordinates", "outside": "deeper trees, n>7, arity>4, overflow/underflow, rounding size"},
 }
-ASSUMPTIONS = ["Part E (dyadic exactness): on the rational fragment the code's operation trace must be the reference trace up to fp-exact identities "
+ASSUMPTIONS = ["integer powers (Exponential with a rational base, Power with an integer exponent) are checked for exactness by REAL runs at 16 integer points against "
+               "exact rational arithmetic (not by the solver: ** over floats has no usable theory); roots, logarithms and trigonometric functions are not claimed exact",
+               "Part E (dyadic exactness): on the rational fragment the code's operation trace must be the reference trace up to fp-exact identities "
                "(0+a, 1*a, a/1, commutativity of one + or *); otherwise a QF_FP query (cvc5 on z3's export) searches integer inputs and inputs k/16 with |x|<=1024 on which every reference operation "
                "is exact but the results differ (60 s, else inconclusive); ** with integer exponent and libm are trusted exact on representable results"]
 
@@ -39,6 +41,19 @@ def sym_param_jobs():
     out.append({"d": ["Power", fam.C(1), fam.V(1)]})
     out.append({"d": ["Power", fam.V(1), fam.C(1)]})
     out.append({"d": ["Divide", fam.C(1), fam.C(2)]})
+    return out
+
+
+_POINTS_DONE = set()
+
+
+def exact_power_trees():
+    X, Y = fam.X, fam.Y
+    out = [["Exponential", X, b] for b in (2, 3, 5, 10, 0.5, 0.25, 4, 1)]
+    out += [["Add", ["Exponential", X, 3], Y], ["Multiply", ["Exponential", X, 10], Y], ["Minus", ["Exponential", X, 10], ["const", 100]], ["Power", X, Y],
+            ["Power", ["Add", X, ["const", 1]], Y], ["Divide", ["Exponential", X, 3], ["const", 4]], ["NthPower", ["Exponential", X, 3], 2],
+            ["Exponential", ["Add", X, Y], 2], ["Exponential", ["Negation", X], 0.5], ["Multiply", ["Power", X, ["const", 3]], ["Exponential", Y, 5]],
+            ["Power", ["const", 3], X], ["Reciprocal", ["Exponential", X, 2]]]
     return out
 
 
@@ -74,6 +89,9 @@ def jobs(tier, seed):
     # operands that are the same expression up to ONE symbolic constant (a structural comparison that is not exact would confuse them)
     for d in near_twins():
         add(d, no_exact=True)
+    # integer powers at integer points: the exactness clause outside the polynomial fragment (real runs, exact rational reference)
+    for d in exact_power_trees():
+        add(d, no_exact=True, exact_points=True)
     # bare number in place of a point
     for d in fam.unary_variants(fam.X, tier) + [["Add", fam.X, ["const", 2]], ["Multiply", fam.X, fam.X], ["Add"], ["const", 3]]:
         add(d, routes=("eval_num",), var="x", supplied=["x"])
@@ -138,6 +156,91 @@ def exactness_vc(spec, ctx, out, idx):
     return v
 
 
+def exact_eval(d, val):
+    """exact value (a Fraction) of a descriptor at a point, or None unless EVERY intermediate is a small integer / dyadic rational that
+    rational arithmetic and integer powers produce exactly (the exactness clause of the property beyond the polynomial fragment of Part E)"""
+    import fractions
+    F = fractions.Fraction
+
+    def small(q):
+        if q is None:
+            return None
+        den = q.denominator
+        return q if (den & (den - 1)) == 0 and den <= 2 ** 20 and abs(q.numerator) < 2 ** 40 else None
+
+    def ev(d):
+        k = d[0]
+        if k == "share":
+            return ev(d[2])
+        if k == "var":
+            return small(F(val[d[1]]))
+        if k == "const":
+            return small(F(d[1])) if isinstance(d[1], (int, float)) else None
+        args = [ev(c) for c in d[1:] if isinstance(c, list) and c and isinstance(c[0], str) and c[0] in rt.ALL_KINDS + ("share",)]
+        if any(a is None for a in args):
+            return None
+        if k == "Add":
+            return small(sum(args, F(0)))
+        if k == "Multiply":
+            r = F(1)
+            for a in args:
+                r = small(r * a)
+                if r is None:
+                    return None
+            return r
+        if k == "Minus":
+            return small(args[0] - args[1])
+        if k == "Negation":
+            return -args[0]
+        if k == "Divide":
+            return small(args[0] / args[1]) if args[1] != 0 else None
+        if k == "Reciprocal":
+            return small(1 / args[0]) if args[0] != 0 else None
+        if k == "NthPower":
+            return small(args[0] ** int(d[2])) if abs(args[0]) < 2 ** 10 else None
+        if k == "Exponential":
+            if len(d) < 3 or not isinstance(d[2], (int, float)) or args[0].denominator != 1 or abs(args[0]) > 30:
+                return None
+            return small(F(d[2]) ** int(args[0]))
+        if k == "Power":
+            if args[0] <= 0 or args[1].denominator != 1 or abs(args[1]) > 30:
+                return None
+            return small(args[0] ** int(args[1]))
+        return None            # roots, logarithms, sine, cosine: not exact in general
+    try:
+        return ev(d)
+    except (OverflowError, ZeroDivisionError, ValueError):
+        return None
+
+
+INTEGER_POINTS = [[2, 3], [3, 2], [5, 1], [0, 0], [-1, 2], [-2, 3], [1, 5], [10, 2], [4, -2], [-3, 0], [2], [3], [-2], [0], [5], [-1]]
+
+
+def integer_power_vc(spec, idx):
+    import fractions
+    from harness.run import VC
+    d = rt.strip_share(spec["d"])
+
+    def judge(val, couts):
+        o = couts[idx]
+        if o["kind"] != "value" or o.get("vtype") not in ("float", "int"):
+            return None
+        try:
+            pt = {n: fractions.Fraction(int(v)) for n, v in val.items() if v == int(v)}
+        except Exception:  # noqa
+            return None
+        if set(rt.variables_of(d)) - set(pt):
+            return None
+        exact = exact_eval(d, pt)
+        if exact is None:
+            return None
+        got = fractions.Fraction(float.fromhex(o["value"])) if o["vtype"] == "float" else fractions.Fraction(int(o["value"]))
+        if got != exact:
+            return f"returned {float(got)!r} but every exact intermediate at this integer point is a small dyadic rational and the exact value is {exact}"
+        return None
+    return VC("dyadic-exactness:integer-powers-at-integer-points", z3.BoolVal(True), judge, {"concrete_only": True, "candidates": INTEGER_POINTS})
+
+
 def vcs(spec, ctx, outs):
     out = outs[-1]
     idx = len(outs) - 1
@@ -146,6 +249,9 @@ def vcs(spec, ctx, outs):
         e = exactness_vc(spec, ctx, out, idx)
         if e is not None:
             res.append(e)
+        if spec.get("exact_points") and spec["id"] not in _POINTS_DONE:
+            _POINTS_DONE.add(spec["id"])             # once per job (first path that returns a number)
+            res.append(integer_power_vc(spec, idx))
         return res
     if common.strange(out):
         return [common.kind_vc("no-foreign-outcome-on-domain", ctx, out, z3.Not(ctx.indom), idx)]
